@@ -5,6 +5,7 @@ import Driver.Curves
 import Driver.FX
 import Driver.Linalg
 import Driver.Splines
+import Driver.Ser
 open Drv
 
 structure St where
@@ -38,6 +39,9 @@ def stepLine (st : St) (line : String) : St × String :=
   | none =>
   match splineStep st.duals st.splines toks with
   | some (sp, out) => ({ st with splines := sp }, out)
+  | none =>
+  match serStep st.duals st.curves st.fx st.splines st.dates.calNames toks with
+  | some out => (st, out)
   | none => (st, "bad-op")
 
 partial def loop (h : IO.FS.Stream) (out : IO.FS.Stream) (st : St) : IO Unit := do
